@@ -962,6 +962,39 @@ func c01R11(c *Ctx) {
 			break
 		}
 	}
+	// neither loop is left early with success: from inside a round, the success return is reachable only through the
+	// loop's own exit test (counter exhausted / list exhausted)
+	for _, side := range []struct {
+		f     *ssa.Function
+		names []string
+	}{{sf, []string{tT + "sendFileNameV3", tT + "sendFileName"}}, {rf, []string{tT + "recvFileNameV3", tT + "recvFileName"}}} {
+		for _, nc := range callsIn(side.f, idIs(side.names...)) {
+			// the loop header: the closest dominating block that ends in an If and has a back edge from inside the loop
+			var header *ssa.BasicBlock
+			for d := nc.Block(); d != nil; d = d.Idom() {
+				if blockIf(d) == nil {
+					continue
+				}
+				back := false
+				for _, p := range d.Preds {
+					if d.Dominates(p) {
+						back = true
+					}
+				}
+				if back {
+					header = d
+					break
+				}
+			}
+			if header == nil {
+				c.bad(c.fnName(side.f)+"/no-early-success@"+shortID(calleeID(nc.Common())), c.ipos(nc), "the per-file loop around the name step was not found")
+				continue
+			}
+			exit := func(from, to *ssa.BasicBlock) bool { return from == header && !header.Dominates(to) || (from == header && !reachesBlock(to, header)) }
+			hit, path := reachFromE(nc.Block(), instrIndex(nc.(ssa.Instruction))+1, isNilErrReturn, nil, exit)
+			c.check(hit == nil, c.fnName(side.f)+"/no-early-success@"+shortID(calleeID(nc.Common())), c.ipos(nc), "success is returned only after the loop's own exit test ended it (every announced file had its round)", "the per-file loop can be left with success before all files had their round", c.pathStr(path)...)
+		}
+	}
 	c.check(good, "recvFiles/rounds=announced", c.ipos(rn[0]), "the receiver runs one round per announced file (counter from 0, +1 per round, while below the number)", "the number of rounds the receiver runs is not tied to the announced number of files")
 }
 
@@ -1086,6 +1119,18 @@ func c01R13(c *Ctx) {
 		})
 		c.check(hit == nil, "pipelineRecvData/no-chunk-dropped@"+shortID(calleeID(rc.Common())), c.ipos(rc), "a non-empty chunk always reaches the forward before the next receive or the end of the stage (other exits: cancel, cancelled context, empty chunk)", "a received non-empty chunk can be skipped", c.pathStr(path)...)
 	}
+	// the empty chunk ends the stage: no further receive after it
+	for _, b := range f.Blocks {
+		for _, sx := range b.Succs {
+			if len(b.Succs) == 2 && b.Succs[0] != b.Succs[1] && empty(b, sx) {
+				h2, p2 := reachFrom(sx, 0, func(in ssa.Instruction) bool {
+					ci, ok := in.(ssa.CallInstruction)
+					return ok && idIs(tT+"pipelineRecvBinaryData", tT+"pipelineRecvBase64Data")(calleeID(ci.Common()))
+				}, nil)
+				c.check(h2 == nil, "pipelineRecvData/empty-chunk-ends-stage", c.pos(b.Instrs[len(b.Instrs)-1].Pos()), "after the end-of-data chunk the stage receives nothing more", "after the end-of-data chunk the stage goes on receiving: it swallows the MD5 line that follows", c.pathStr(p2)...)
+			}
+		}
+	}
 	// the binary receiver reads a payload exactly when the announced chunk size is not zero
 	bf := c.fn("trzszTransfer.pipelineRecvBinaryData")
 	for _, ci := range callsIn(bf, idIs("(*trzsz.trzszBuffer).readBinary")) {
@@ -1104,4 +1149,26 @@ func c01R13(c *Ctx) {
 		return otherF(from, to) || ctxErrEdge(from, to) || empty(from, to)
 	})
 	c.check(hit == nil, "pipelineRecvData/continues-after-forward", c.ipos(fwd), "after forwarding a chunk the stage goes on receiving", "the stage can end right after forwarding a chunk although more data is owed", c.pathStr(path)...)
+}
+
+// reachesBlock: block `to` is reachable from block `from` in the CFG.
+func reachesBlock(from, to *ssa.BasicBlock) bool {
+	seen := map[*ssa.BasicBlock]bool{}
+	var walk func(b *ssa.BasicBlock) bool
+	walk = func(b *ssa.BasicBlock) bool {
+		if b == to {
+			return true
+		}
+		if seen[b] {
+			return false
+		}
+		seen[b] = true
+		for _, s := range b.Succs {
+			if walk(s) {
+				return true
+			}
+		}
+		return false
+	}
+	return walk(from)
 }
